@@ -150,6 +150,7 @@ def check(ctx, report, facts, config):
     ev, ends = Q.sem(ctx, facts, b, opaque=[A.F_CHECK_INTERSECTION])
     expected = set([frozenset(["OLD-W", "NEW-R"]), frozenset(["OLD-W", "NEW-W"]), frozenset(["OLD-R", "NEW-W"])])
     seen_pairs = set()
+    n_checks = set()
     n_ret = n_div = 0
     for e in ends:
         roles = {}
@@ -168,9 +169,13 @@ def check(ctx, report, facts, config):
         conds = []
         for (ct, cv, cn, cs) in e.path.conds:
             if Q.is_call(ev, ct, "check_intersection") and Q.callee_of(ev, ct).key == A.F_CHECK_INTERSECTION:
-                pair = frozenset([roles.get(Q.strip(ev, ct[2][0]), "?"), roles.get(Q.strip(ev, ct[2][1]), "?")])
-                conds.append((pair, cv))
-                seen_pairs.add(pair)
+                # an operand may be a chain of several lists: the test then covers every pair of leaves
+                for la in Q.leaves(ev, ct[2][0]):
+                    for lb in Q.leaves(ev, ct[2][1]):
+                        pair = frozenset([roles.get(Q.strip(ev, la), "?"), roles.get(Q.strip(ev, lb), "?")])
+                        conds.append((pair, cv))
+                        seen_pairs.add(pair)
+                n_checks.add(ct)
         anyhit = any(v == 1 for _, v in conds)
         if e.kind == "return":
             n_ret += 1
@@ -193,7 +198,7 @@ def check(ctx, report, facts, config):
                 report.ob(rule, "Par::with/spurious-panic", False, "a path without any intersection panics", site=b.loc(), config=config)
     report.ob(rule, "Par::with/matrix", seen_pairs == expected,
               "intersections tested: %s" % sorted(sorted(x) for x in seen_pairs), site=b.loc(), config=config)
-    report.ob(rule, "Par::with/outcomes", n_ret >= 1 and n_div >= 3, "%d accepting path(s), %d rejecting path(s) (expected 1 and one per intersection)" % (n_ret, n_div), site=b.loc(), config=config)
+    report.ob(rule, "Par::with/outcomes", n_ret >= 1 and n_div >= max(1, len(n_checks)), "%d accepting path(s), %d rejecting path(s) (expected at least 1 and one per intersection test, %d)" % (n_ret, n_div, len(n_checks)), site=b.loc(), config=config)
     # Seq::with / new wiring
     def nested(ev, r, head, hn, inner_head, inner_tail):
         o = Q.record(ev, r, head + "::" + hn)
